@@ -65,18 +65,53 @@ func runC14Split(c *Ctx) {
 		}
 		return ""
 	}
+	// the slow path's loop: reads the input byte by byte and carries (flag, piece, list) in its header;
+	// the quote stack is an optional second record of the flag (hasStack)
 	var loop *loopInfo
+	hasStack := false
 	for _, l := range naturalLoops(fn) {
+		reads, stack := false, false
 		for b := range l.Body {
 			for _, ins := range b.Instrs {
 				if isStackCall(ins) != "" {
-					loop = l
+					stack = true
+				}
+				switch x := ins.(type) {
+				case *ssa.Lookup:
+					reads = reads || x.X == fn.Params[0]
+				case *ssa.Index:
+					reads = reads || x.X == fn.Params[0]
 				}
 			}
 		}
+		nb, nby, nstr := 0, 0, 0
+		for _, ins := range l.Header.Instrs {
+			ph, ok := ins.(*ssa.Phi)
+			if !ok {
+				break
+			}
+			switch t := ph.Type().Underlying().(type) {
+			case *types.Basic:
+				if t.Kind() == types.Bool {
+					nb++
+				}
+			case *types.Slice:
+				if eb, ok := t.Elem().Underlying().(*types.Basic); ok {
+					if eb.Kind() == types.Uint8 {
+						nby++
+					}
+					if eb.Kind() == types.String {
+						nstr++
+					}
+				}
+			}
+		}
+		if stack || (reads && nb == 1 && nby == 1 && nstr == 1) {
+			loop, hasStack = l, stack
+		}
 	}
 	if loop == nil {
-		c.Unk("C14-SPLIT", name, "loop", fn.Pos(), "no loop using the quote stack found: slow path not recognised")
+		c.Unk("C14-SPLIT", name, "loop", fn.Pos(), "no byte-by-byte loop carrying (inside-quotes flag, piece, list) found: slow path not recognised")
 		return
 	}
 	// header phis: P (bool), tmp ([]byte), res ([]string), i (int)
@@ -210,6 +245,10 @@ func runC14Split(c *Ctx) {
 			}
 			res := func(b bool) (bool, bool) { return b != neg, true }
 			switch x := v.(type) {
+			case *ssa.Const:
+				if x.Value != nil && (x.Value.String() == "true" || x.Value.String() == "false") {
+					return res(x.Value.String() == "true")
+				}
 			case *ssa.Phi:
 				if x == phiP {
 					return res(cs.P)
@@ -286,6 +325,23 @@ func runC14Split(c *Ctx) {
 					}
 				}
 				st.eff.nextP = -1
+				if nv != nil {
+					np := map[*ssa.BasicBlock]*ssa.BasicBlock{}
+					for k, v := range st.preds {
+						np[k] = v
+					}
+					np[b] = from
+					st2 := st
+					st2.preds = np
+					if val, known := evalCond(nv, &st2); known {
+						st.eff.nextP = 0
+						if val {
+							st.eff.nextP = 1
+						}
+						results = append(results, st.eff)
+						return
+					}
+				}
 				for d := 0; d < 8 && nv != nil; d++ {
 					if nv == phiP {
 						if cs.P {
@@ -421,6 +477,9 @@ func runC14Split(c *Ctx) {
 			continue
 		}
 		want := spec[cs]
+		if !hasStack {
+			want.push, want.pop = 0, 0
+		}
 		var bad []string
 		if len(effs) != 1 {
 			bad = append(bad, fmt.Sprintf("%d paths for one (state, byte class)", len(effs)))
